@@ -101,6 +101,7 @@ func (r *Run) mergePartial(path string) error {
 // ChildResult describes how a child ended.
 type ChildResult struct {
 	OK       bool   // exited 0 and delivered its partial
+	Merged   bool   // the partial was delivered and merged (possibly with a non-zero exit, e.g. "race detected")
 	TimedOut bool   // watchdog fired
 	Output   string // tail of the combined output
 	LastCase string // content of the .cur file (case description + input hex) when it crashed
@@ -152,11 +153,14 @@ func (r *Run) RunChild(testName, tag string, env []string, watchdog time.Duratio
 		}
 		res.Output = s
 	}
-	if err == nil && !res.TimedOut {
+	if !res.TimedOut {
 		if merr := r.mergePartial(out); merr == nil {
-			res.OK = true
-			return res
-		} else {
+			res.Merged = true
+			if err == nil {
+				res.OK = true
+				return res
+			}
+		} else if err == nil {
 			res.Output += "\npartial: " + merr.Error()
 		}
 	}
